@@ -53,6 +53,41 @@ def chain(prefix, top, j, body_at_j, after):
     return out
 
 
+def chain2(prefix, top, n, bodies, hold=None, end=("bid stop all",)):
+    """Frames <prefix>0..<prefix>(n-1) under `top`; frame i carries bodies.get(i) and is left after one
+    tick, or after hold[i] ticks; the last frame carries `end`."""
+    hold = hold or {}
+    out = ["   frame %s" % top] + rec3(top, 6)
+    for i in range(n):
+        name = "%s%d" % (prefix, i)
+        out.append("      frame %s in %s" % (name, top))
+        out += rec3(name, 9)
+        out += ["         " + ln for ln in bodies.get(i, ())]
+        if i == n - 1:
+            out += ["         " + ln for ln in end]
+        elif i in hold:
+            out.append("         go next if elapsed >= %r" % (hold[i] * TICK))
+        else:
+            out.append("         go next")
+    return out
+
+
+def deep_framer(name, sched, depth, extra=(), end_after=None):
+    """`depth` nested frames <n>0 > <n>1 > ... with recorders; extra lines go into the innermost."""
+    f = name.lower()
+    out = ["framer %s be %s first %s0" % (name, sched, f)]
+    for d in range(depth):
+        ind = 3 + 3 * d
+        out.append(" " * ind + "frame %s%d" % (f, d) + (" in %s%d" % (f, d - 1) if d else ""))
+        out += rec3("%s%d" % (f, d), ind + 3)
+        if d == 0 and end_after is not None:
+            out.append(" " * (ind + 3) + "go %send if elapsed >= %r" % (f, end_after * TICK))
+    out += [" " * (3 * depth + 3) + ln for ln in extra]
+    if end_after is not None:
+        out += ["   frame %send" % f] + rec3(f + "end", 6) + ["      bid stop all"]
+    return out
+
+
 def worker_framer(name, sched, extra=(), end_after=None):
     """Two nested frames with recorders; `end_after=n`: after n ticks of running the framer moves to a
     final frame that bids stop all (so that every program ends by itself whatever happened to A)."""
@@ -100,6 +135,31 @@ def flo_programs(tier):
         A = ["framer A be active first a0"] + chain("a", "atop", j + 1, ["bid abort B", "bid abort A"], 1)
         B = worker_framer("B", "active")
         progs.append(("P4 bid abort B and A at tick %d" % (j + 1), [B, A]))
+    # R1: nested framer B stopped by a bid at tick i and started again at tick j > i; the run then ends
+    #     during B's second incarnation (stop all / abort all, and every crash and interrupt point)
+    ijs = [(0, 1), (0, 2), (1, 2), (1, 3)] if tier != "thorough" else [(i, j) for i in range(3) for j in range(i + 1, i + 4)]
+    for depth in (2, 3):
+        for i, j in ijs:
+            for ending in ("stop", "abort"):
+                for a_first in ((True, False) if (i, j) == (0, 1) else (True,)):
+                    A = ["framer A be active first a0"] + chain2("a", "atop", j + 4, {i: ["bid stop B"], j: ["bid start B"]},
+                                                                 end=("bid %s all" % ending,) + (("bid stop me",) if ending == "abort" else ()))
+                    B = deep_framer("B", "active", depth)
+                    progs.append(("R1 depth %d: bid stop B at tick %d, bid start B at tick %d, then bid %s all, A %s"
+                                  % (depth, i, j, ending, "first" if a_first else "last"), [A, B] if a_first else [B, A]))
+    # R2: auxiliary X (nested outline) entered with frame m0, left, entered again with frame m<k>
+    for depth in (2, 3):
+        for k in ((2,) if tier != "thorough" else (1, 2, 3)):
+            M = ["framer M be active first m0"] + chain2("m", "mtop", k + 3, {0: ["aux X"], k: ["aux X"]}, hold={k: 2})
+            X = deep_framer("X", "aux", depth)
+            progs.append(("R2 depth %d: aux X under m0 and again under m%d" % (depth, k), [M, X]))
+    # R3: slave S (nested outline) started / run / stopped by fiats in frame a<i>, then again in frame a<j>
+    for depth in (2, 3):
+        for i, j in (((0, 2),) if tier != "thorough" else ((0, 1), (0, 2), (1, 3))):
+            fiats = ["start S", "run S", "stop S"]
+            A = ["framer A be active first a0"] + chain2("a", "atop", j + 3, {i: fiats, j: fiats}, hold={j: 2})
+            S = deep_framer("S", "slave", depth)
+            progs.append(("R3 depth %d: slave S by fiat in a%d and again in a%d" % (depth, i, j), [A, S]))
     out = []
     for title, blocks in progs:
         text = "house h\n\n" + "\n\n".join("\n".join(b) for b in blocks) + "\n"
@@ -229,6 +289,9 @@ def run_case(prog, fault=None, interrupt_at=None, dispatch=None):
             real.FAULT["at"], real.FAULT["exc"] = None, None
         npoints = real.FAULT["count"]
         order = [t.name for t in house.taskables]
+        for fm in real.all_framers(house):
+            for fr in fm.frameNames.values():
+                res.parents[(fm.name, fr.name)] = fr.over.name if getattr(fr, "over", None) is not None else None
         return res, order, set(order), npoints
     house, ref, count = build_hand(body, fault)
     res = ref["res"] = sked.Traced()
@@ -359,7 +422,19 @@ def judge(p, prog, res, order, framers, fault, interrupt_at, label):
             p.violation("sweep|abort-sent-to-unscheduled-tasker", example,
                         "%s had left the queue (aborted / ended / raised) but was sent ABORT in the sweep" % n, replay)
             return
-    # (4) frames of swept framers exited bottom-up
+    # (4) frames exited by the sweep go bottom-up.  Nesting is the program's static structure (frame.over),
+    #     not the order in which the frames happened to be entered: a frame may only be exited when none of
+    #     the frames nested in it is still entered.  Applies to everything a sweep ABORT exits: the swept
+    #     framer's own frames and those of auxiliaries / slaves it takes down with it.
+    parents = getattr(res, "parents", {}) or {}
+
+    def nested_in(fr, inner, outer):
+        x = parents.get((fr, inner))
+        while x is not None:
+            if x == outer:
+                return True
+            x = parents.get((fr, x))
+        return False
     stacks = {}
     swept_ids = set(id(s) for s in sweep)
     for e in res.trace:
@@ -370,14 +445,17 @@ def judge(p, prog, res, order, framers, fault, interrupt_at, label):
             if ctx == "enter":
                 st.append(frame)
             elif ctx == "exit":
-                if st and st[-1] == frame:
-                    st.pop()
-                elif id(e) in swept_ids and fr == e["name"]:
-                    p.violation("frames|exit-not-bottom-up", example,
-                                "abort of %s exited frame %s while the innermost open frame was %r" % (fr, frame, st[-1:] or None), replay)
-                    return
-                elif frame in st:
-                    st.remove(frame)
+                if id(e) in swept_ids:
+                    inner = [g for g in st if g != frame and nested_in(fr, g, frame)]
+                    if inner:
+                        p.violation("frames|exit-not-bottom-up", example,
+                                    "abort of %s (sweep) exited frame %s of %s while %r, nested in it, %s still entered (entered order %r)"
+                                    % (e["name"], frame, fr, inner, "was" if len(inner) == 1 else "were", st), replay)
+                        return
+                if frame in st:
+                    st.reverse()
+                    st.remove(frame)        # the most recent entry of that frame
+                    st.reverse()
     for n in queued:
         if n in framers and stacks.get(n):
             p.violation("frames|entered-frame-not-exited", example,
